@@ -35,7 +35,7 @@ def generate(tier, seed):
         val = [[[float(1000 * m + 100 * a + i) + rng.dyadic(0, 0.5, 4) for i in range(nw)] for a in range(na)] for m in range(nm)]
         names = ['mod_%02d_%s' % (m, 'x' * rng.choice([0, 3, 10, 19])) for m in range(nm)]
         cases.append(dict(kind=kind, wav=wav, order=order, aps=aps, val=val, names=names, unit=rng.choice(UNITS), with_unc=rng.random() < 0.7,
-                          unit_wav=rng.choice(['micron', 'micron', 'cm', 'nm', 'Angstrom']), unit_freq=rng.choice(['Hz', 'Hz', 'GHz', 'THz']), memmap=rng.random() < 0.5, conv_wav=rng.choice([None, rng.dyadic(0.3, 50, 8)])))
+                          stored=rng.choice(['incr', 'decr']), unit_wav=rng.choice(['micron', 'micron', 'cm', 'nm', 'Angstrom']), unit_freq=rng.choice(['Hz', 'Hz', 'GHz', 'THz']), memmap=rng.random() < 0.5, conv_wav=rng.choice([None, rng.dyadic(0.3, 50, 8)])))
     return cases
 
 
@@ -62,6 +62,9 @@ def impl(case):
             s.error = s.flux * 0.125
             p = os.path.join(d, 'a_sed.fits')
             s.write(p)
+            if case.get('stored') == 'decr':      # SED.write always stores increasing frequency; files stored the other way round exist too
+                import pkgcase
+                pkgcase.store_decreasing(p)
             # the units wavelengths / frequencies are asked in (returned values are converted back and snapped to the stored wavelength within 1e-12)
             uw, uf = u.Unit(case.get('unit_wav', 'micron')), u.Unit(case.get('unit_freq', 'Hz'))
 
